@@ -1,6 +1,6 @@
 """C16 - history-driven samplers use the history faithfully and never modify it (E4).
 
-no-modification : all nine samplers x history lattice (ties, one huge loss, +inf, +-1e39 beyond float32) x three successive calls:
+no-modification : all nine samplers x history lattice (ties, one huge loss, +inf, +-1e39 beyond float32 - both sides together and each side alone, -inf) x three successive calls:
                   byte snapshots of existing_points / existing_losses around every call (also when the call raises).
 surrogate       : a stub MLSurrogateSampler whose fit() records its arguments and whose predict() returns a scripted vector:
                   pool sizes 3..5, EVERY prediction vector in {0,1,2}^pool, batch sizes 1..3, two successive calls with different
@@ -67,7 +67,7 @@ def nomod_cell(cell):
         res["evaluations"] += 1
         res["traces"] += 1
         res["transitions"] += delivered
-        if case["pattern"] in ("inf", "f32overflow", "huge", "ties"):
+        if case["pattern"] in ("inf", "f32overflow", "f32under", "f32over", "neginf", "huge", "ties"):
             res["nontrivial"] += 1
         res["outcomes"].add((case["sampler"], case["pattern"], "raised" if raised else "ok"))
         if raised:
@@ -393,7 +393,7 @@ def main(ctx):
     cases = []
     for sp in spaces1 + spaces2:
         for name, opts in L.CHEAP + L.COSTLY:
-            for pattern in ("ties", "huge", "inf", "f32overflow"):
+            for pattern in ("ties", "huge", "inf", "f32overflow", "f32under", "f32over", "neginf"):
                 for n in ((9,) if ctx.quick else (3, 4, 9)):
                     cases.append({"space": sp, "sampler": name, "opts": opts, "bs": 3 if name not in ("ParticleSwarm",) else 2, "seed": S, "n": n, "pattern": pattern})
     for name, opts in L.CHEAP + L.COSTLY:   # larger-scope probes: 40-row history, batch of 6, five parameters
@@ -448,7 +448,7 @@ def main(ctx):
             bp.append({"space": [0, 3, 4], "pool": P, "bs": bs, "pos": pos, "seed": S})
     for i in range(8):
         cells.append({"kind": "bigpool", "cases": bp[i::8]})
-    ctx.bounds = {"no_modification": {"samplers": len(L.CHEAP) + len(L.COSTLY), "spaces": len(spaces1 + spaces2), "loss_patterns": ["ties", "huge", "inf", "f32overflow"], "successive_calls": 3},
+    ctx.bounds = {"no_modification": {"samplers": len(L.CHEAP) + len(L.COSTLY), "spaces": len(spaces1 + spaces2), "loss_patterns": ["ties", "huge", "inf", "f32overflow", "f32under", "f32over", "neginf"], "successive_calls": 3},
                   "stub_surrogate": "pool sizes 3..5 (6 thorough), every prediction vector in {0,1,2}^pool, batch sizes 1..3, two calls with different equal-length histories",
                   "large_pools": "stub surrogate predicting a function of the candidate; pools 1000..20000 (100000 thorough), best candidate at head / tail / around multiples of 4096",
                   "long_histories_best_batch": "999..2500 rows (20000 thorough)",
